@@ -205,7 +205,7 @@ namespace raptor
                 // Iterate until convergence or max iterations
                 Vector resid(rhs.size());
                 levels[0]->A->residual(sol, rhs, resid);
-                if (fabs(b_norm) > zero_tol)
+                if (b_norm > 0.0)
                 {
                     r_norm = resid.norm(2) / b_norm;
                 }
@@ -227,7 +227,7 @@ namespace raptor
 
                     iter++;
                     levels[0]->A->residual(sol, rhs, resid);
-                    if (fabs(b_norm) > zero_tol)
+                    if (b_norm > 0.0)
                     {
                         r_norm = resid.norm(2) / b_norm;
                     }
